@@ -593,6 +593,17 @@ func (c *counters) add(k string, d int64) {
 // runCase plans one scenario under the requested qualifiers × modes and reports.
 func runCase(a *acct, cs Case, verbose bool) {
 	c := a.c
+	// counters are batched per scenario (one lock round per scenario instead of ~40 per plan)
+	cnt, mat := map[string]int64{}, map[string]int64{}
+	defer func() {
+		for k, v := range cnt {
+			a.Count(k, v)
+		}
+		for k, v := range mat {
+			a.matrix.add(k, v)
+		}
+	}()
+	count := func(k string, d int64) { cnt[k] += d }
 	p, err := prepare(cs)
 	if err != nil {
 		c.Inconclusive("prepare")
@@ -617,7 +628,7 @@ func runCase(a *acct, cs Case, verbose bool) {
 			changes, u, err := p.fresh()
 			if err != nil {
 				c.OOD("diff-error")
-				a.Count("differr:"+cs.Dialect+":"+errClass(err.Error()), 1)
+				count("differr:"+cs.Dialect+":"+errClass(err.Error()), 1)
 				if verbose {
 					fmt.Println("diff error:", err)
 				}
@@ -632,7 +643,7 @@ func runCase(a *acct, cs Case, verbose bool) {
 			}
 			m := classify(changes)
 			if len(changes) == 0 {
-				a.Count("empty-changeset:"+cs.Dialect, 1)
+				count("empty-changeset:"+cs.Dialect, 1)
 				continue
 			}
 			res := doPlan(cs.Dialect, changes, qual, mode)
@@ -652,35 +663,35 @@ func runCase(a *acct, cs Case, verbose bool) {
 			nontrivial := len(res.Stmts) > 0 && !v.trivial
 			c.Eval(rt.Digest(cs.Dialect, qual, txt), nontrivial)
 			a.local.add("evals", 1)
-			a.Count("plan:"+cs.Dialect+":"+qual+":"+mode, 1)
-			a.Count("src:"+cs.Dialect+":"+cs.Src, 1)
-			a.Count("stmts:"+cs.Dialect+":"+qual, int64(stats.Stmts))
-			a.Count("reverse-stmts:"+cs.Dialect+":"+qual, int64(stats.Reverse))
-			a.Count("ref:"+cs.Dialect+":"+qual+":table", int64(stats.Table))
-			a.Count("ref:"+cs.Dialect+":"+qual+":type", int64(stats.Type))
-			a.Count("ref:"+cs.Dialect+":"+qual+":index", int64(stats.Index))
+			count("plan:"+cs.Dialect+":"+qual+":"+mode, 1)
+			count("src:"+cs.Dialect+":"+cs.Src, 1)
+			count("stmts:"+cs.Dialect+":"+qual, int64(stats.Stmts))
+			count("reverse-stmts:"+cs.Dialect+":"+qual, int64(stats.Reverse))
+			count("ref:"+cs.Dialect+":"+qual+":table", int64(stats.Table))
+			count("ref:"+cs.Dialect+":"+qual+":type", int64(stats.Type))
+			count("ref:"+cs.Dialect+":"+qual+":index", int64(stats.Index))
 			for h, n := range stats.Heads {
-				a.Count("stmt:"+cs.Dialect+":"+h, int64(n))
+				count("stmt:"+cs.Dialect+":"+h, int64(n))
 			}
 			if res.Err != "" {
-				a.Count("rejected:"+cs.Dialect+":"+qual+":"+errClass(res.Err), 1)
+				count("rejected:"+cs.Dialect+":"+qual+":"+errClass(res.Err), 1)
 			}
 			if qual == "nil" && strings.Contains(txt, marker) {
-				a.Count("control:nil-plan-mentions-marker:"+cs.Dialect, 1)
+				count("control:nil-plan-mentions-marker:"+cs.Dialect, 1)
 			}
 			for _, k := range m.Kinds {
-				a.matrix.add(cs.Dialect+"|"+qual+"|"+mode+"|"+k, 1)
+				mat[cs.Dialect+"|"+qual+"|"+mode+"|"+k]++
 				if mode == "unset" {
-					a.Count("kind:"+cs.Dialect+":"+qual+":"+k, 1)
+					count("kind:"+cs.Dialect+":"+qual+":"+k, 1)
 				}
 			}
 			switch {
 			case len(m.Schemas) > 1:
-				a.Count("class:"+cs.Dialect+":"+qual+":multi-schema", 1)
+				count("class:"+cs.Dialect+":"+qual+":multi-schema", 1)
 			case m.schemaLevel():
-				a.Count("class:"+cs.Dialect+":"+qual+":schema-level", 1)
+				count("class:"+cs.Dialect+":"+qual+":schema-level", 1)
 			default:
-				a.Count("class:"+cs.Dialect+":"+qual+":single-schema", 1)
+				count("class:"+cs.Dialect+":"+qual+":single-schema", 1)
 			}
 			if v.ood != "" {
 				c.OOD(v.ood)
